@@ -9,7 +9,7 @@ import vlib, refs, pairs
 
 SIZES = {  # (quick, thorough) number of pairs per stratum
     "uniform": (120, 3000), "threshold": (260, 8000), "grey": (80, 4000), "named": (60, 2500),
-    "nearbg": (80, 2500), "hair": (60, 1500), "witness": (330, 9000), "spell": (130, 4000),
+    "nearbg": (80, 2500), "hair": (60, 1500), "witness": (900, 20000), "spell": (130, 4000),
 }
 
 
@@ -78,10 +78,11 @@ def strata(pid, t, rnd):
             elif name == "witness":
                 vr = bool(rnd.getrandbits(1))
                 tq = pairs.REQ[(large, vr)]
-                a, b = pairs.near_threshold(rnd, tq, (0.0, 0.2))
+                a, b = pairs.near_threshold(rnd, tq, (0.0, 0.2) if k % 5 == 0 else (0.0, 0.07))
                 # strata: text lighter/darker than the background on light/mid/dark backgrounds come from the
                 # random segment end (black/white) and random backgrounds of near_threshold
-                add(a, b, large, witness=True, runs=[(m, vr) for m in (0, 1, 2)])
+                # both settings are run on the same pair in one process, the stricter one first, every mode
+                add(a, b, large, witness=True, runs=[(m, v) for v in (True, False) for m in (0, 1, 2)])
     return specs
 
 
